@@ -1126,6 +1126,32 @@ func init() {
 			w.setHeight(15)
 			w.opEpoch()
 		}
+		// D21: a reward period that takes over late — P1 = blocks 2..5, then at block 7 a period P2 = blocks 6..9 is
+		// configured (its start block has passed, so the per-period counters of the pools still hold P1's totals):
+		// two pools of equal depth must keep receiving equal shares of every block of P2 (accumulate and distribute)
+		for _, dist := range []bool{false, true} {
+			w := newAmmWorld(rng, out, 3, -1)
+			w.fundAll()
+			w.opCreate(w.users[0], "ceth", e18(1000), e18(50))
+			w.opCreate(w.users[1], "cusdc", e18(1000), e18(70))
+			setPeriod := func(start, stop uint64, alloc int64) {
+				def := sdk.OneDec()
+				a := sdk.NewUint(uint64(alloc))
+				per := &clptypes.RewardPeriod{RewardPeriodId: fmt.Sprintf("rp%d", start), RewardPeriodStartBlock: start, RewardPeriodEndBlock: stop, RewardPeriodAllocation: &a, RewardPeriodDefaultMultiplier: &def, RewardPeriodDistribute: dist, RewardPeriodMod: 1}
+				p := w.app.ClpKeeper.GetRewardsParams(w.ctx)
+				p.RewardPeriods = []*clptypes.RewardPeriod{per}
+				w.app.ClpKeeper.SetRewardParams(w.ctx, p)
+				w.cfg(fmt.Sprintf("rewardperiod %d %d %d 1 %s 1000000000000000000", start, stop, alloc, b2s(dist)))
+			}
+			setPeriod(2, 5, 4000)
+			for !w.halted && w.height <= 6 {
+				w.opEndBlock()
+			}
+			setPeriod(6, 9, 4800)
+			for !w.halted && w.height <= 10 {
+				w.opEndBlock()
+			}
+		}
 		// D20: depth rewards accumulated in the pools when the remaining-amount clamp binds: three pools of 1, 1 and 4
 		// whole rowan (weights 1/6, 1/6, 4/6 round up at 18 decimals), 6·10¹⁸ per block — the pools may record only
 		// what was minted; the same with five pools and in distribute mode
